@@ -19,6 +19,7 @@ common.setup_env()
 import spydrnet as sdn  # noqa: E402
 from spydrnet.uniquify import uniquify  # noqa: E402
 from spydrnet.flatten import flatten  # noqa: E402
+from spydrnet.clone import clone as clone_function  # noqa: E402
 
 from .. import gen_ir, gen_ops, wf, snapshot, canon, probes  # noqa: E402
 from ..elab import Elab  # noqa: E402
@@ -288,7 +289,8 @@ def check_small_clone(ctx, kind, x, n):
     s0 = snapshot.snap(U)
     ids0 = idset(U)
     try:
-        c = x.clone()
+        # both spellings of the public entry point: element.clone() and spydrnet.clone.clone(element)
+        c = x.clone() if ctx.counters["clone_roots"] % 2 == 0 else clone_function(x)
     except Exception as ex:  # noqa: BLE001
         return "%s-clone-raised:%s" % (kind, type(ex).__name__), "%r at %s" % (ex, probes.innermost_frame(ex))
     ctx.count("clone_roots")
